@@ -6,6 +6,7 @@
 package verifc18hs
 
 import (
+	"bytes"
 	"crypto/tls"
 
 	"github.com/pion/dtls/v3/internal/ciphersuite/types"
@@ -256,6 +257,58 @@ func envelopeCodec(kx int) *v.Codec {
 	}
 }
 
+// ---------------------------------------------------------------- edge values
+
+// edgeOf wraps a fixed message as an edge value of its codec: the dump is the one the message
+// codecs use (fields without the message tag).
+func edgeOf(name string, inRange bool, mk func() handshake.Message) v.Edge {
+	return v.Edge{Name: name, InRange: inRange, Make: func() (v.Dump, []byte, error) {
+		m := mk()
+		d := v.Dump{}
+		DumpMessage2(&d, m)
+		out, err := m.Marshal()
+
+		return d[1:], out, err
+	}}
+}
+
+func fill(n int, b byte) []byte { return bytes.Repeat([]byte{b}, n) }
+
+// clientKeyExchangeEdges: vectors at and one past what their length prefix can hold, and the
+// values whose fields do not match the key-exchange context kx (Marshal picks the layout from
+// the nil-ness of the fields, Unmarshal from kx).
+func clientKeyExchangeEdges(kx int) []v.Edge {
+	alg := types.KeyExchangeAlgorithm(kx)
+	mk := func(id, pk []byte) func() handshake.Message {
+		return func() handshake.Message {
+			return &handshake.MessageClientKeyExchange{IdentityHint: id, PublicKey: pk, KeyExchangeAlgorithm: alg}
+		}
+	}
+	switch kx {
+	case 2:
+		return []v.Edge{
+			edgeOf("identity-65535", true, mk(fill(65535, 0x69), nil)),
+			edgeOf("identity-65536", false, mk(fill(65536, 0x69), nil)),
+			edgeOf("public-key-under-psk", false, mk([]byte("id"), fill(32, 0x20))),
+		}
+	case 4:
+		return []v.Edge{
+			edgeOf("public-key-255", true, mk(nil, fill(255, 0x20))),
+			edgeOf("public-key-256", false, mk(nil, fill(256, 0x20))),
+			edgeOf("identity-under-ecdhe", false, mk([]byte("id"), fill(32, 0x20))),
+		}
+	case 6:
+		return []v.Edge{
+			edgeOf("identity-65535-public-key-255", true, mk(fill(65535, 0x69), fill(255, 0x20))),
+			edgeOf("identity-65536", false, mk(fill(65536, 0x69), fill(32, 0x20))),
+			edgeOf("no-identity-under-ecdhe-psk", false, mk(nil, fill(32, 0x20))),
+			edgeOf("no-public-key-under-ecdhe-psk", false, mk([]byte("id"), nil)),
+		}
+	}
+
+	return nil
+}
+
 // Codecs returns the handshake-level codecs: envelope under every key-exchange context (11),
 // HelloVerifyRequest (12), ClientKeyExchange (13), CertificateVerify (14), Certificate (15),
 // NewConnectionID (16), KeyUpdate (17).
@@ -266,6 +319,14 @@ func Codecs() []*v.Codec {
 		func(r *v.Rand) handshake.Message {
 			return &handshake.MessageHelloVerifyRequest{Version: protocol.Version1_2, Cookie: r.Bytes(r.Pick(0, 1, 20, 255, r.Intn(256)))}
 		}, nil))
+	out[len(out)-1].Edges = []v.Edge{
+		edgeOf("cookie-255", true, func() handshake.Message {
+			return &handshake.MessageHelloVerifyRequest{Version: protocol.Version1_2, Cookie: fill(255, 0xc0)}
+		}),
+		edgeOf("cookie-256", false, func() handshake.Message {
+			return &handshake.MessageHelloVerifyRequest{Version: protocol.Version1_2, Cookie: fill(256, 0xc0)}
+		}),
+	}
 	for _, kx := range []int{0, 2, 4, 6} {
 		kx := kx
 		// regression inputs of the repaired decoder (1fc4918): 0000 used to index past the end
@@ -286,6 +347,7 @@ func Codecs() []*v.Codec {
 				4: {{1, 170}},                          // one-byte public key
 				6: {{0, 1, 9, 1, 170}, {0, 0, 1, 170}}, // identity + key, empty identity + key
 			}[kx]...))
+		out[len(out)-1].Edges = clientKeyExchangeEdges(kx)
 	}
 	out = append(out, msgCodec("certificate_verify", 14, nil,
 		func() handshake.Message { return &handshake.MessageCertificateVerify{} },
@@ -297,6 +359,17 @@ func Codecs() []*v.Codec {
 				Signature: r.Bytes(r.Len(72)),
 			}
 		}, [][]byte{{8, 4, 0, 1, 170}}))
+	cvEdge := func(n int) func() handshake.Message {
+		return func() handshake.Message {
+			return &handshake.MessageCertificateVerify{
+				HashAlgorithm: hash.SHA256, SignatureAlgorithm: signature.ECDSA, Signature: fill(n, 0x51),
+			}
+		}
+	}
+	out[len(out)-1].Edges = []v.Edge{
+		edgeOf("signature-65535", true, cvEdge(65535)),
+		edgeOf("signature-65536", false, cvEdge(65536)),
+	}
 	out = append(out, msgCodec("certificate", 15, nil,
 		func() handshake.Message { return &handshake.MessageCertificate{} },
 		func(r *v.Rand) handshake.Message {
@@ -307,6 +380,22 @@ func Codecs() []*v.Codec {
 		func(r *v.Rand) handshake.Message {
 			return &handshake.MessageNewConnectionID{CIDs: genBytesList(r, 4, 10), Usage: handshake.ConnectionIDUsage(r.Intn(2))}
 		}, nil))
+	cidEdge := func(n, size int) func() handshake.Message {
+		return func() handshake.Message {
+			m := &handshake.MessageNewConnectionID{CIDs: [][]byte{}}
+			for i := 0; i < n; i++ {
+				m.CIDs = append(m.CIDs, fill(size, byte(i)))
+			}
+
+			return m
+		}
+	}
+	out[len(out)-1].Edges = []v.Edge{
+		edgeOf("cid-255", true, cidEdge(1, 255)),
+		edgeOf("cid-256", false, cidEdge(1, 256)),
+		edgeOf("cids-65535-bytes", true, cidEdge(257, 254)), // 257 * (1 + 254) = 65535
+		edgeOf("cids-65536-bytes", false, cidEdge(256, 255)), // 256 * (1 + 255) = 65536
+	}
 	out = append(out, msgCodec("key_update", 17, nil,
 		func() handshake.Message { return &handshake.MessageKeyUpdate{} },
 		func(r *v.Rand) handshake.Message {
